@@ -5,7 +5,7 @@
 PROP="$1"; PAT="${2:-}"; TIER="${3:-quick}"
 HERE="$(cd "$(dirname "$0")/.." && pwd)"; cd "$HERE"
 sh vk/bootstrap.sh || exit 3
-for d in seeded/$PROP-* seeded/own-$PROP-* seeded/neutral-$PROP-*; do
+for d in seeded/$PROP-* seeded/own-$PROP-* seeded/neutral-$PROP-* $VK_EXTRA_SEEDS; do
   [ -f "$HERE/$d/patch.diff" ] || continue
   case "$d" in *"$PAT"*) ;; *) continue;; esac
   ID="$(basename $d)"
